@@ -13,8 +13,8 @@ import (
 
 // Choice is one recorded order choice.
 type Choice struct {
-	N int // number of alternatives (n! for n<=4, otherwise rotations+reversal+transpositions)
-	C int
+	N    int // number of alternatives (n! for n<=4, otherwise rotations+reversal+transpositions)
+	C    int
 	Keys int // number of keys at this iteration point
 }
 
